@@ -58,6 +58,14 @@ func c11Gen(tier string, seed int64) []fw.Case {
 			}
 		}
 	}
+	for _, ca := range []string{"peerclose", "localclose", "malformed"} {
+		all = append(all, c11Case{Kind: "late-acks", Cause: ca}, c11Case{Kind: "late-acks", Cause: ca, Chunk: 1})
+	}
+	for _, ca := range []string{"cancel", "deadline"} {
+		for _, k := range []string{"switch-pub1", "switch-pub2", "switch-sub"} {
+			all = append(all, c11Case{Kind: k, Cause: ca})
+		}
+	}
 	var cs []fw.Case
 	per := 8
 	for i := 0; i < len(all); i += per {
@@ -93,6 +101,12 @@ type blocked struct {
 func c11One(k c11Case, rng *rand.Rand) (sig, detail string, trace []string) {
 	if strings.HasPrefix(k.Kind, "rc-") {
 		return c11Reconnect(k, rng)
+	}
+	if k.Kind == "late-acks" {
+		return c11LateAcks(k, rng)
+	}
+	if strings.HasPrefix(k.Kind, "switch-") {
+		return c11Switch(k, rng)
 	}
 	base := serveGoroutines()
 	tr := memnet.NewTrace()
@@ -626,4 +640,275 @@ func init() {
 		Run:         c11Run,
 		Budget:      retryBudget,
 	})
+}
+
+// c11LateAcks: calls of every kind (two Pings among them) are cancelled while waiting; the broker then answers all
+// of them late, every answer twice. The reader goroutine must survive that (a fresh Ping is answered), and the
+// connection-ending cause applied afterwards must still close Done() and let the reader exit.
+func c11LateAcks(k c11Case, rng *rand.Rand) (sig, detail string, trace []string) {
+	base := serveGoroutines()
+	tr := memnet.NewTrace()
+	peer := &scen.Script{Tr: tr, AutoConnack: true}
+	cli, conn := scen.NewBase(tr, peer)
+	conn.Chunk = k.Chunk
+	id := fmt.Sprintf("late-acks/%s/chunk=%d", k.Cause, k.Chunk)
+	fail := func(s, f string, a ...interface{}) (string, string, []string) {
+		cli.Close()
+		return s + ":late-acks/" + k.Cause, id + ": " + fmt.Sprintf(f, a...), tr.Dump(80)
+	}
+	if err := scen.ConnectBase(cli); err != nil {
+		return "inconclusive", err.Error(), nil
+	}
+	type call struct {
+		name   string
+		cancel context.CancelFunc
+		done   chan error
+	}
+	var calls []*call
+	start := func(name string, fn func(ctx context.Context) error) {
+		ctx, cancel := context.WithCancel(context.Background())
+		cl := &call{name: name, cancel: cancel, done: make(chan error, 1)}
+		calls = append(calls, cl)
+		go func() {
+			cs := tr.Call(name, "")
+			err := fn(ctx)
+			tr.Ret(cs, name, "", err)
+			cl.done <- err
+		}()
+	}
+	peer.OnPkt = func(c *memnet.Conn, p *mqttref.Packet, raw []byte) bool {
+		if p != nil && p.Type == mqttref.PUBLISH && p.Topic == "c11/rel" {
+			c.SendLocked(mqttref.EncAck(mqttref.PUBREC, p.ID), "") // this one is cancelled while waiting for PUBCOMP
+		}
+		return false
+	}
+	start("Publish-q1", func(ctx context.Context) error {
+		return cli.Publish(ctx, &mqtt.Message{Topic: "c11/a", QoS: mqtt.QoS1, Payload: []byte("x")})
+	})
+	start("Publish-q2", func(ctx context.Context) error {
+		return cli.Publish(ctx, &mqtt.Message{Topic: "c11/b", QoS: mqtt.QoS2, Payload: []byte("x")})
+	})
+	start("Publish-q2-rel", func(ctx context.Context) error {
+		return cli.Publish(ctx, &mqtt.Message{Topic: "c11/rel", QoS: mqtt.QoS2, Payload: []byte("x")})
+	})
+	start("Subscribe", func(ctx context.Context) error {
+		_, err := cli.Subscribe(ctx, mqtt.Subscription{Topic: "c11/#", QoS: mqtt.QoS1})
+		return err
+	})
+	start("Unsubscribe", func(ctx context.Context) error { return cli.Unsubscribe(ctx, "c11/#") })
+	start("Ping#1", func(ctx context.Context) error { return cli.Ping(ctx) })
+	if _, ok := peer.WaitIn(scen.Watchdog, 1, func(p *mqttref.Packet) bool { return p.Type == mqttref.PINGREQ }); !ok {
+		return "inconclusive", "first PINGREQ not seen", nil
+	}
+	start("Ping#2", func(ctx context.Context) error { return cli.Ping(ctx) })
+	want := map[int]int{mqttref.PUBLISH: 3, mqttref.PUBREL: 1, mqttref.SUBSCRIBE: 1, mqttref.UNSUBSCRIBE: 1, mqttref.PINGREQ: 2}
+	for t, n := range want {
+		t := t
+		if _, ok := peer.WaitIn(scen.Watchdog, n, func(p *mqttref.Packet) bool { return p.Type == t }); !ok {
+			return "inconclusive", "requests not seen: " + mqttref.TypeName(t), tr.Dump(40)
+		}
+	}
+	// cancel in a seeded order (the later Ping first half of the time)
+	order := rng.Perm(len(calls))
+	for _, i := range order {
+		calls[i].cancel()
+		select {
+		case err := <-calls[i].done:
+			if !errors.Is(err, context.Canceled) {
+				return fail("wrong-error", "%s returned %v, want the cancelled context's error", calls[i].name, err)
+			}
+		case <-time.After(scen.Watchdog):
+			if scen.CertifyStuck(tr, conn) {
+				return fail("blocked-forever", "%s did not return after its context was cancelled", calls[i].name)
+			}
+			return "inconclusive", calls[i].name + " not returned within the watchdog", tr.Dump(40)
+		}
+	}
+	// late answers, each twice, in a seeded order
+	tr.Mu.Lock()
+	var late [][]byte
+	for _, in := range peer.In {
+		if in.P == nil {
+			continue
+		}
+		switch in.P.Type {
+		case mqttref.PUBLISH:
+			if in.P.Topic == "c11/a" {
+				late = append(late, mqttref.EncAck(mqttref.PUBACK, in.P.ID))
+			} else {
+				late = append(late, mqttref.EncAck(mqttref.PUBREC, in.P.ID))
+			}
+		case mqttref.PUBREL:
+			late = append(late, mqttref.EncAck(mqttref.PUBCOMP, in.P.ID))
+		case mqttref.SUBSCRIBE:
+			late = append(late, mqttref.EncSubAck(in.P.ID, []byte{1}))
+		case mqttref.UNSUBSCRIBE:
+			late = append(late, mqttref.EncAck(mqttref.UNSUBACK, in.P.ID))
+		case mqttref.PINGREQ:
+			late = append(late, mqttref.EncPingResp())
+		}
+	}
+	tr.Mu.Unlock()
+	late = append(late, late...)
+	rng.Shuffle(len(late), func(i, j int) { late[i], late[j] = late[j], late[i] })
+	for _, raw := range late {
+		conn.Send(raw, "late answer to a cancelled call")
+	}
+	// the reader is still at work: a fresh Ping is answered
+	peer.AutoPing = true
+	pctx, pcancel := context.WithTimeout(context.Background(), scen.Watchdog)
+	cs := tr.Call("Ping", "fresh")
+	perr := cli.Ping(pctx)
+	tr.Ret(cs, "Ping", "fresh", perr)
+	pcancel()
+	if perr != nil {
+		if scen.IsDeadline(perr) && !scen.CertifyStuck(tr, conn) {
+			return "inconclusive", "fresh Ping not answered within the watchdog, system still moving", tr.Dump(40)
+		}
+		return fail("reader-stalled-by-late-answers", "after late (duplicated) answers to cancelled calls a fresh Ping returned %v: the reader no longer processes incoming packets", perr)
+	}
+	tr.Note("cause: %s", k.Cause)
+	switch k.Cause {
+	case "localclose":
+		cli.Close()
+	case "peerclose":
+		conn.PeerClose("cause")
+	case "malformed":
+		conn.Send([]byte{0x36, 0x03, 0x00, 0x01, 'x'}, "malformed")
+	}
+	select {
+	case <-cli.Done():
+	case <-time.After(scen.Watchdog):
+		return fail("done-not-closed", "connection ended (%s) but Done() is not closed", k.Cause)
+	}
+	cli.Close()
+	for i := 0; ; i++ {
+		if serveGoroutines() <= base {
+			break
+		}
+		if i > 2000 {
+			return fail("reader-goroutine-leaked", "after the connection ended %d library reader goroutine(s) are still running", serveGoroutines()-base)
+		}
+		time.Sleep(200 * time.Microsecond)
+	}
+	return "", "", nil
+}
+
+// c11Switch: a RetryClient driven by hand. A request is in flight on connection 1 when SetClient installs
+// connection 2 (make-before-break); the request then completes on connection 1. Connect on the new client,
+// further requests and Disconnect must all return (Connect and Disconnect within their contexts).
+func c11Switch(k c11Case, rng *rand.Rand) (sig, detail string, trace []string) {
+	tr := memnet.NewTrace()
+	peer := &scen.Script{Tr: tr, AutoConnack: true}
+	id := fmt.Sprintf("%s/%s", k.Kind, k.Cause)
+	retry := &mqtt.RetryClient{}
+	cli1, conn1 := scen.NewBase(tr, peer)
+	fail := func(s, f string, a ...interface{}) (string, string, []string) {
+		cli1.Close()
+		return s + ":" + k.Kind + "/" + k.Cause, id + ": " + fmt.Sprintf(f, a...), tr.Dump(80)
+	}
+	bg := context.Background()
+	retry.SetClient(bg, cli1)
+	if _, err := retry.Connect(bg, "verif"); err != nil {
+		return "inconclusive", err.Error(), nil
+	}
+	var want int
+	switch k.Kind {
+	case "switch-pub1":
+		want = mqttref.PUBLISH
+		if err := retry.Publish(bg, &mqtt.Message{Topic: "c11/s", QoS: mqtt.QoS1, Payload: []byte("x")}); err != nil {
+			return "inconclusive", err.Error(), nil
+		}
+	case "switch-pub2":
+		want = mqttref.PUBLISH
+		if err := retry.Publish(bg, &mqtt.Message{Topic: "c11/s", QoS: mqtt.QoS2, Payload: []byte("x")}); err != nil {
+			return "inconclusive", err.Error(), nil
+		}
+	case "switch-sub":
+		want = mqttref.SUBSCRIBE
+		if _, err := retry.Subscribe(bg, mqtt.Subscription{Topic: "c11/s", QoS: mqtt.QoS1}); err != nil {
+			return "inconclusive", err.Error(), nil
+		}
+	}
+	in, ok := peer.WaitIn(scen.Watchdog, 1, func(p *mqttref.Packet) bool { return p.Type == want })
+	if !ok {
+		return "inconclusive", "request not seen on connection 1", tr.Dump(30)
+	}
+	// make-before-break: the new client is installed while the request is still waiting on the old one
+	cli2, conn2 := scen.NewBase(tr, peer)
+	defer cli2.Close()
+	cs := tr.Call("SetClient", "2")
+	retry.SetClient(bg, cli2)
+	tr.Ret(cs, "SetClient", "2", nil)
+	// now the old connection delivers the acknowledgement(s)
+	peer.AutoAck = true
+	conn1.Send(scen.AckFor(in[0].P), "acknowledgement on the replaced connection")
+	// let the request finish on the old connection first (for QoS 2: PUBREL/PUBCOMP follow through AutoAck)
+	lastAck := mqttref.PUBACK
+	switch k.Kind {
+	case "switch-pub2":
+		lastAck = mqttref.PUBCOMP
+	case "switch-sub":
+		lastAck = mqttref.SUBACK
+	}
+	if rng.Intn(4) != 0 {
+		tr.WaitFor(scen.Watchdog, func() bool {
+			for _, e := range tr.Events {
+				if e.Kind == memnet.KConsumed && e.Conn == conn1.ID && e.Pkt != nil && e.Pkt.Type == lastAck {
+					return true
+				}
+			}
+			return false
+		})
+		time.Sleep(time.Duration(rng.Intn(400)) * time.Microsecond)
+	}
+	// Connect on the new client, bounded by its context
+	call := func(name string, d time.Duration, fn func(ctx context.Context) error) (error, bool) {
+		var ctx context.Context
+		var cancel context.CancelFunc
+		if k.Cause == "deadline" {
+			ctx, cancel = context.WithTimeout(bg, d)
+		} else {
+			ctx, cancel = context.WithCancel(bg)
+			t := time.AfterFunc(d, cancel)
+			defer t.Stop()
+		}
+		defer cancel()
+		done := make(chan error, 1)
+		go func() {
+			cs := tr.Call(name, "")
+			err := fn(ctx)
+			tr.Ret(cs, name, "", err)
+			done <- err
+		}()
+		select {
+		case err := <-done:
+			return err, true
+		case <-time.After(d + scen.Watchdog):
+			return nil, false
+		}
+	}
+	steps := []struct {
+		name string
+		fn   func(ctx context.Context) error
+	}{
+		{"Connect", func(ctx context.Context) error { _, err := retry.Connect(ctx, "verif"); return err }},
+		{"Publish", func(ctx context.Context) error {
+			return retry.Publish(ctx, &mqtt.Message{Topic: "c11/after", QoS: mqtt.QoS1, Payload: []byte("y")})
+		}},
+		{"Ping", func(ctx context.Context) error { return retry.Ping(ctx) }},
+		{"Disconnect", func(ctx context.Context) error { return retry.Disconnect(ctx) }},
+	}
+	peer.AutoPing = true
+	for _, st := range steps {
+		err, returned := call(st.name, 300*time.Millisecond, st.fn)
+		if !returned {
+			if scen.CertifyStuck(tr, conn2) {
+				return fail("blocked-forever", "RetryClient.%s did not return although its context ended %v ago (a request had been in flight on the replaced connection and completed there)", st.name, scen.Watchdog)
+			}
+			return "inconclusive", st.name + " not returned within the watchdog", tr.Dump(40)
+		}
+		_ = err // success or the context's error: both are prompt returns
+	}
+	return "", "", nil
 }
